@@ -16,6 +16,7 @@ func init() {
 }
 
 func runC03(r *engine.Run) {
+	r.Rule("FRESH-pathbuf", "see C01: Insert copies the caller's path before it builds nodes from it: leaves and extensions keep sub-slices of the path, and a caller that reuses its key buffer would change stored and pending nodes behind their hashes")
 	r.Rule("DOM-askstore", "getNode returns an error only after it asked the trie's store (no remembered miss): a child reads its parent's content through the parent's store, and a node that was absent once may be there now")
 	r.Rule("PURE-accessor", "the read accessors of the change collector (GetChanges, GetDeletes, GetStartRoot) store nothing into the collector: a kept listing of the delete set that is not dropped where a re-created node leaves the set makes the merge delete a live node in the parent")
 	r.Rule("WHO-prev", "in every method of LevelNodeDB a call on the parent level (value loaded from field prev) is a read (GetNode, MultiGetNode, Iterate, Size) or a DeleteNode reached only with PropagateDeletes true; every PutNode/MultiPutNode goes to the current level")
@@ -50,6 +51,7 @@ func runC03(r *engine.Run) {
 	cloneDeep(r)
 	askStore(r, "DOM-askstore")
 	pureAccessors(r, "PURE-accessor")
+	freshPathBuf(r, "FRESH-pathbuf")
 }
 
 func whoPrev(r *engine.Run) {
